@@ -36,6 +36,13 @@ P = {
         "components": comp(real=["ToAddr, port table construction, compareAddr, AddAddress"], stub=["stub services"]),
         "assumptions": ["host names and literal 0.0.0.0/:: are not generated (DNS / statement silent)", "no schedule, clock or fault dimension: configuration exploration hosted by the simulator"],
     },
+    "C06": {
+        "runs": {"quick": 4000, "thorough": 500000},
+        "budget_s": {"quick": 150, "thorough": 3000},
+        "rule": "one scenario = a generated configuration of 1-3 capture channels and 0-4 filters (channel lists incl. unknown names and repeats, category/service regex lists or absent/empty lists) booted through the real Run(), with 1-3 interleaved sender actors putting events (category/service matching, non-matching, missing, non-string) on the bus handle services receive, optionally a real redis connection and a slow channel; run again with one channel removed; distinct = distinct trace digest; non-trivial = at least one filter configured",
+        "components": comp(real=["eventbus fan-out, FilterChannel/RegexFilterFunc, TokenChannel, Run() channel/filter wiring", "redis service (event source)"], stub=["stub service that hands the bus handle to the harness"]),
+        "assumptions": ["a missing or non-string category/service is matched as the empty string", "an empty expression list admits everything, like an absent one"],
+    },
 }
 
 def get(prop):
